@@ -463,6 +463,8 @@ class scope:
             if isinstance(c, type):
                 if self.intmode is None or self.how == "npscalar":
                     self._record_methods(c)
+                elif self.how == "derived" and name in ("Plane", "Polyline"):
+                    self._warm_before_methods(c)
                 self.saved.append((polliwog.__dict__, name, c))
                 polliwog.__dict__[name] = _pooled_class(c)
         return _pool
@@ -483,6 +485,33 @@ class scope:
                 continue
             self.class_saved.append((cls, name, attr))
             setattr(cls, name, new)
+
+    def _warm_before_methods(self, cls):
+        """derived runs: before the first public method call on a Plane / Polyline, the object is *used* (every public
+        property read, the cheap queries asked), as it would have been in a program that has had it for a while -- so a
+        method that derives a new object (rounded, rolled, sliced_at_indices, tilted, ...) derives it from a used one"""
+        import types
+        warmed = set()
+        busy = [False]
+
+        def wrap(f):
+            def w(self_, *a, **k):
+                if not busy[0] and id(self_) not in warmed:
+                    warmed.add(id(self_))
+                    busy[0] = True
+                    try:
+                        _warm(self_)
+                    finally:
+                        busy[0] = False
+                return f(self_, *a, **k)
+            w.__name__ = getattr(f, "__name__", "w")
+            w.__doc__ = f.__doc__
+            return w
+        for name, attr in list(vars(cls).items()):
+            if name.startswith("_") or not isinstance(attr, types.FunctionType):
+                continue
+            self.class_saved.append((cls, name, attr))
+            setattr(cls, name, wrap(attr))
 
     def __exit__(self, *exc):
         global _pool
